@@ -69,9 +69,14 @@ structure St where
   cache : List (QKey × Nat)
   /-- the pool of value objects of a history -/
   objs : List Obj
+  /-- the validity memo of Array / FixedArray objects (`_is_valid`, `_validity_exception`), by pool index:
+  `none` = cached "valid", `some e` = the cached exception.  It is state of the object itself, written by
+  the validation operations; it is NOT value, unit, category, dimension or container contents, and the
+  snapshots / frame theorems do not speak about it -/
+  valid : List (Nat × Option ErrKind) := []
 deriving Repr
 
-def St.empty : St := ⟨[], [], [], []⟩
+def St.empty : St := ⟨[], [], [], [], []⟩
 
 /-! ### the effect monad -/
 
@@ -144,6 +149,11 @@ def newObj (o : Obj) : M Nat := fun s => .ok (s.objs.length, { s with objs := s.
 def cacheGet (k : QKey) : M (Option Nat) := fun s => .ok ((s.cache.find? (·.1 == k)).map (·.2), s)
 
 def cachePut (k : QKey) (q : Nat) : M Unit := fun s => .ok ((), { s with cache := (k, q) :: s.cache })
+
+def memoGet (i : Nat) : M (Option (Option ErrKind)) := fun s =>
+  .ok ((s.valid.find? (·.1 == i)).map (·.2), s)
+
+def memoPut (i : Nat) (v : Option ErrKind) : M Unit := fun s => .ok ((), { s with valid := (i, v) :: s.valid })
 
 /-! ### values and conversions (pure) -/
 
@@ -383,8 +393,8 @@ def checkCats (db : Db) : List (Sym × Sym × Int) → Except ErrKind Unit
     | .error e => .error e
     | .ok _ => checkCats db rest
 
-/-- `ObtainQuantity(dict, None, caption)`; the dict and its lists are the ones passed in (they are
-kept by the new `Quantity` when the cache misses) -/
+/-- `ObtainQuantity(dict, None, caption)`; when the cache misses the new `Quantity` copies the dict and its
+lists once more -/
 def obtainDict (db : Db) (es : List (Sym × Ref)) (caption : Sym) : M Nat := do
   let items ← readItems es
   match items with
@@ -393,8 +403,11 @@ def obtainDict (db : Db) (es : List (Sym × Ref)) (caption : Sym) : M Nat := do
     match (← cacheGet (.derived items caption)) with
     | some q => pure q
     | none =>
+      -- `Quantity.__init__`, derived branch: the quantity keeps ITS OWN copy of the mapping, with new
+      -- `[unit, exp]` lists (`OrderedDict((cat, list(unit_and_exp)) …)`)
+      let own ← copyPairs es
       liftE (checkCats db items)
-      let q ← newQuant ⟨es, caption, true, items⟩
+      let q ← newQuant ⟨own, caption, true, items⟩
       cachePut (.derived items caption) q
       pure q
 
@@ -784,6 +797,39 @@ def getValue (db : Db) (i : Nat) (unit : Option Sym) : M Out := do
     | none => pure (.fval v true)
     | some u => do let r ← convertFractionValue db v q u; pure (.fval r false)
 
+inductive Scribble | edit | append | clear
+deriving DecidableEq, Repr
+
+/-- what the CALLER does to a container it got from `GetValues(unit)`: `r[:] = 777`, `r.append(777)`,
+`r.clear()` (a list; an ndarray is overwritten with 777; a tuple cannot be changed) -/
+def scribbled (how : Scribble) (k : Kind) (xs : List Rat) : List Rat :=
+  match k, how with
+  | .tuple, _ => xs
+  | .list, .append => xs ++ [777]
+  | .list, .clear => []
+  | _, _ => xs.map (fun _ => 777)
+
+/-- `r = x.GetValues(unit)` followed by the caller writing into `r` - unless `r` is the Array's own
+container (own unit / no unit), which the histories leave alone.  The write goes to the cell that
+`GetValues` has just handed out. -/
+def getValuesAndScribble (db : Db) (i : Nat) (unit : Option Sym) (how : Scribble) : M Out := do
+  match (← getObj i) with
+  | .array q c => do
+    let r ← arrayValues db q c unit
+    let s ← readSeq r.1
+    if r.2 then pure (.cont r.1 true)
+    else do
+      writeM r.1 (.seq s.1 (scribbled how s.1 s.2))
+      pure (.cont r.1 false)
+  | .fixed _ q c => do
+    let r ← arrayValues db q c unit
+    let s ← readSeq r.1
+    if r.2 then pure (.cont r.1 true)
+    else do
+      writeM r.1 (.seq s.1 (scribbled how s.1 s.2))
+      pure (.cont r.1 false)
+  | _ => failM .other
+
 /-! ### CreateCopy, copy, pickle -/
 
 /-- the quantity chosen by `AbstractValueWithQuantityObject.CreateCopy(value, unit, category)` -/
@@ -941,28 +987,69 @@ def minMax : List Rat → Option (Rat × Rat)
   | [] => none
   | x :: xs => some (xs.foldl (fun (p : Rat × Rat) v => if v < p.1 then (v, p.2) else if p.2 < v then (p.1, v) else p) (x, x))
 
-/-- `IsValid()` -/
+/-- `Array._DoValidateValues(values, quantity)`: nothing for a derived quantity or a category without
+limits; otherwise the loop finds the smallest and the largest value and both are checked (reads only) -/
+def doValidateValues (db : Db) (o : QObj) (xs : List Rat) : Except ErrKind Unit :=
+  if o.derived then .ok () else
+  match minMax xs with
+  | none => .ok ()
+  | some (lo, hi) => (checkValue db o lo).bind (fun _ => checkValue db o hi)
+
+/-- `Array.ValidateValues` (behind `CheckValidity`): the verdict is computed once per object and cached
+(`_is_valid = True`, or `_validity_exception`, which is raised again) -/
+def validateArray (db : Db) (i : Nat) (o : QObj) (c : Ref) : M (Except ErrKind Unit) := do
+  match (← memoGet i) with
+  | some none => pure (.ok ())
+  | some (some e) => pure (.error e)
+  | none =>
+    let s ← readSeq c
+    let r := doValidateValues db o s.2
+    memoPut i (match r with
+      | .ok _ => none
+      | .error e => some e)
+    pure r
+
+/-- `CheckValidity()` of every class, as an outcome -/
+def checkValidityE (db : Db) (i : Nat) : M (Except ErrKind Unit) := do
+  let ob ← getObj i
+  let o ← getQ ob.q
+  match ob with
+  | .scalar _ x => pure (checkValue db o x)
+  | .fscalar _ v => do let x ← fvFloat v; pure (checkValue db o x)
+  | .array _ c => validateArray db i o c
+  | .fixed _ _ c => validateArray db i o c
+
+/-- `CheckValidity()` / `ValidateValues(self.GetValues(), self.GetQuantity())` -/
+def checkValidity (db : Db) (i : Nat) : M Unit := do
+  liftE (← checkValidityE db i)
+
+/-- `IsValid()`: a derived quantity is valid without looking; `ValueError` means invalid -/
 def isValid (db : Db) (i : Nat) : M Bool := do
   let ob ← getObj i
   let o ← getQ ob.q
   if o.derived then pure true else
-  let r : Except ErrKind Unit ← (match ob with
-    | .scalar _ x => pure (checkValue db o x)
-    | .fscalar _ v => do let x ← fvFloat v; pure (checkValue db o x)
-    | .array _ c => do
-      let s ← readSeq c
-      match minMax s.2 with
-      | none => pure (.ok ())
-      | some (lo, hi) => pure ((checkValue db o lo).bind (fun _ => checkValue db o hi))
-    | .fixed _ _ c => do
-      let s ← readSeq c
-      match minMax s.2 with
-      | none => pure (.ok ())
-      | some (lo, hi) => pure ((checkValue db o lo).bind (fun _ => checkValue db o hi)) : M (Except ErrKind Unit))
-  match r with
+  match (← checkValidityE db i) with
   | .ok _ => pure true
   | .error .value => pure false
   | .error e => failM e
+
+/-- the scan of `_DoValidateValues` with NaNs (`none`): the first non-NaN value initialises minimum and
+maximum, later NaNs are skipped -/
+def scanNaN : List (Option Rat) → Option (Rat × Rat)
+  | [] => none
+  | none :: rest => scanNaN rest
+  | some x :: rest =>
+    some (rest.foldl (fun (p : Rat × Rat) v => match v with
+      | none => p
+      | some v => if v < p.1 then (v, p.2) else if p.2 < v then (p.1, v) else p) (x, x))
+
+/-- `Array(values, unit, category).CheckValidity()` for a container that may hold NaNs (stateless) -/
+def validateNaN (db : Db) (cat unit : Sym) (xs : List (Option Rat)) : Except ErrKind Unit :=
+  match scanNaN xs with
+  | none => .ok ()
+  | some (lo, hi) =>
+    let o : QObj := ⟨[], 0, false, [(cat, unit, 1)]⟩
+    (checkValue db o lo).bind (fun _ => checkValue db o hi)
 
 /-- `str(x)`, `repr(x)`, `GetFormatted()`: read the value(s) and the quantity's strings -/
 def format (i : Nat) : M Unit := do
@@ -1120,6 +1207,8 @@ inductive Op
   | copy (i : Nat)                       -- copy.copy / copy.deepcopy / Copy()
   | pickle (i : Nat)
   | isValid (i : Nat)
+  | checkValidity (i : Nat)
+  | scribble (i : Nat) (unit : Option Sym) (how : Scribble)
   | format (i : Nat)
   | changingIndex (i : Nat) (idx : Int) (value : Operand) (useValueUnit : Bool)
   | indexAsScalar (i : Nat) (idx : Int)
@@ -1146,6 +1235,8 @@ def exec (db : Db) : Op → M Out
   | .copy i => do let _ ← getObj i; pure (.obj i false)          -- `return self`
   | .pickle i => fresh (pickleObj db i)
   | .isValid i => do let b ← isValid db i; pure (.bool b)
+  | .checkValidity i => do checkValidity db i; pure .unit
+  | .scribble i u how => getValuesAndScribble db i u how
   | .format i => do format i; pure .unit
   | .changingIndex i idx v b => fresh (changingIndex db i idx v b)
   | .indexAsScalar i idx => fresh (indexAsScalar db i idx)
